@@ -78,62 +78,69 @@ Example C13_routes_example :
 Proof. exact routes_example. Qed.
 Print Assumptions C13_routes_example.
 
-(* parameters and return type derived from the def statement = derived from the
-   runtime signature (names, kinds, defaults, annotations), for parameter lists
-   of any length and any annotations, when no parameter name is "private" (__x) *)
-Definition C13_def_sig_full_statement : Prop := forall ps,
-  map norm_sparam (sig_from_def ps) = map norm_sparam (sig_from_runtime ps).
+(* ---- signatures ------------------------------------------------------------ *)
+(* full strength (on the tree with repo_fixes/C13-private-name-def-route): for every
+   parameter list -- any names (private or not), kinds, defaults, annotations, return --
+   the def node and the function object give the same names, kinds and defaults, the i-th
+   parameter keeps the declared type of its route, and those types are equal up to the
+   representation of an unannotated *args / **kwargs *)
+Theorem C13_gen_def_private_rule : def_private_rule = true.
+Proof. exact gen_def_private_rule. Qed.
+Print Assumptions C13_gen_def_private_rule.
 
-Theorem C13_def_sig_eq_runtime_sig_partial : forall ps r,
-  forallb param_ok ps = true ->
-  map norm_sparam (sig_from_def ps) = map norm_sparam (sig_from_runtime ps) /\
+Theorem C13_def_sig_eq_runtime_sig : forall ps r,
+  map erase (sig_from_def ps) = map erase (sig_from_runtime ps) /\
+  map s_type (sig_from_def ps) = map def_type ps /\
+  map s_type (sig_from_runtime ps) = map rt_type ps /\
+  (forall p, norm_type (p_kind p) (def_type p) = norm_type (p_kind p) (rt_type p)) /\
   ret_from_def r = ret_from_runtime r.
-Proof. exact def_sig_eq_runtime_sig_partial. Qed.
-Print Assumptions C13_def_sig_eq_runtime_sig_partial.
+Proof. exact def_sig_eq_runtime_sig. Qed.
+Print Assumptions C13_def_sig_eq_runtime_sig.
 
-Theorem C13_def_sig_private_refuted :
-  map s_kind (sig_from_def ex_private) = [PosOrKw; PosOrKw] /\
-  map s_kind (sig_from_runtime ex_private) = [PosOnly; PosOnly].
-Proof. exact def_sig_private_refuted. Qed.
-Print Assumptions C13_def_sig_private_refuted.
+(* the code before the repair (def route without the PEP 484 rule) *)
+Theorem C13_def_sig_legacy_refuted :
+  map s_kind (sig_from_def_legacy ex_private) = [PosOrKw; PosOrKw] /\
+  map s_kind (sig_from_runtime ex_private) = [PosOnly; PosOnly] /\
+  map s_kind (sig_from_def ex_private) = [PosOnly; PosOnly].
+Proof. exact def_sig_legacy_refuted. Qed.
+Print Assumptions C13_def_sig_legacy_refuted.
 
-Theorem C13_def_sig_full_statement_refuted : ~ C13_def_sig_full_statement.
-Proof. exact def_sig_full_statement_refuted. Qed.
-Print Assumptions C13_def_sig_full_statement_refuted.
-
-Example C13_def_sig_guard_inhabited :
-  forallb param_ok ex_sig = true /\
-  map norm_sparam (sig_from_runtime ex_sig) =
+Example C13_def_sig_example :
+  sig_from_runtime ex_sig =
     [mkSParam 1 PosOnly false (TTyped 1); mkSParam 2 PosOrKw true (TUnion true [TTyped 2]);
-     mkSParam 3 VarPos false (TGeneric tuple_c [TAny]); mkSParam 4 KwOnly true TAny;
-     mkSParam 5 VarKw false (TGeneric dict_c [TTyped str_c; TTyped 1])].
-Proof. exact def_sig_guard_inhabited. Qed.
-Print Assumptions C13_def_sig_guard_inhabited.
+     mkSParam 3 VarPos false TAny; mkSParam 4 KwOnly true TAny;
+     mkSParam 5 VarKw false (TGeneric dict_c [TTyped str_c; TTyped 1])] /\
+  map s_type (sig_from_def ex_sig) =
+    [TTyped 1; TUnion true [TTyped 2]; TGeneric tuple_c [TAny]; TAny; TGeneric dict_c [TTyped str_c; TTyped 1]].
+Proof. exact def_sig_example. Qed.
+Print Assumptions C13_def_sig_example.
 
 (* ---- calls ---------------------------------------------------------------- *)
-(* the same call (any list of raw arguments: positionals, keywords, *args and
-   **kwargs of known or unknown length), judged by the binder of C05 against
-   the signature of the def node and against the signature of the function
-   object: the same verdict, the same binding, the same declared type for every
-   bound argument -- for every parameter list without a private name *)
+(* full strength: the same call (any raw argument list) judged by the binder of C05
+   against both signatures: same verdict, same binding, same declared type for every
+   bound argument *)
 Require Import PV.Annot.Calls.
-Require PV.Binder.Bind.
+Require PV.Binder.Bind PV.TypeVar.Base PV.Call.Model.
 
-Definition C13_call_judged_identically_full_statement : Prop := forall ps raw,
+Theorem C13_call_judged_identically : forall ps raw,
   call_in_defining_scope ps raw = call_from_importer ps raw.
+Proof. exact call_judged_identically. Qed.
+Print Assumptions C13_call_judged_identically.
 
-Theorem C13_call_judged_identically_partial : forall ps raw,
-  forallb param_ok ps = true ->
-  call_in_defining_scope ps raw = call_from_importer ps raw.
-Proof. exact call_judged_identically_partial. Qed.
-Print Assumptions C13_call_judged_identically_partial.
+(* ... and checked by the call model of C06 (argument types against declared types,
+   for any assignability relation O and any call with argument values): the same list
+   of diagnostics (incompatible_call, incompatible_argument, ...) and the same result type *)
+Theorem C13_call_checked_identically : forall (O : PV.TypeVar.Base.ops tval) limit ps r c,
+  check_in_defining_scope O limit ps r c = check_from_importer O limit ps r c.
+Proof. exact call_checked_identically. Qed.
+Print Assumptions C13_call_checked_identically.
 
-Theorem C13_call_private_refuted :
-  call_in_defining_scope ex_private [Bind.RKw 1; Bind.RKw 2] <> None /\
+Theorem C13_call_legacy_refuted :
+  call_in_defining_scope_legacy ex_private [Bind.RKw 1; Bind.RKw 2] <> None /\
   call_from_importer ex_private [Bind.RKw 1; Bind.RKw 2] = None /\
-  call_in_defining_scope ex_private [Bind.RPos; Bind.RPos] = call_from_importer ex_private [Bind.RPos; Bind.RPos].
-Proof. exact call_private_refuted. Qed.
-Print Assumptions C13_call_private_refuted.
+  call_in_defining_scope ex_private [Bind.RKw 1; Bind.RKw 2] = None.
+Proof. exact call_legacy_refuted. Qed.
+Print Assumptions C13_call_legacy_refuted.
 
 Example C13_call_example :
   call_from_importer ex_sig [Bind.RPos; Bind.RPos; Bind.RPos; Bind.RKw 4; Bind.RKw 9] <> None /\
